@@ -73,7 +73,8 @@ def git_merge_base(req):
         subprocess.run(["git", "init", "-q", "--bare", tmp], env=GIT_ENV, check=True)
         stream = []
         for i, ps in enumerate(d):
-            stream.append("commit refs/heads/n%d\nmark :%d\ncommitter c <c@x> %d +0000\ndata 2\nc\n" % (i, i + 1, max(req["stamps"][i], 0)))
+            msg = "c%d\n" % i      # distinct messages: siblings with one timestamp would otherwise be one and the same commit
+            stream.append("commit refs/heads/n%d\nmark :%d\ncommitter c <c@x> %d +0000\ndata %d\n%s" % (i, i + 1, max(req["stamps"][i], 0), len(msg), msg))
             if ps:
                 stream.append("from :%d\n" % (ps[0] + 1))
                 for p in ps[1:]:
